@@ -166,6 +166,38 @@ func (w *worker) recordEval(c *recCase, raw []byte) {
 		} else {
 			w.distinct("err|" + errClass(r.Err) + "|" + c.Src)
 		}
+		// ---- C12: the same evaluation in accessor mode (oracle-free parity)
+		if P["C12"] {
+			w.count("C12:pairs", 1)
+			d2, _ := decodeDoc(c.Doc, number)
+			alog := &callLog{}
+			acfg := modelConfig(alog, true)
+			apr := safeParse(text, &acfg)
+			if apr.Err != nil || apr.Panic != nil {
+				w.viol("C12", "accessor-parse-differs", text, before, fmt.Sprintf("plain parse ok, accessor mode: %v %v", apr.Err, apr.Panic), "traceB", raw)
+			} else {
+				ar := safeCall(apr.F, d2)
+				same := ar.Panic == nil && (ar.Err == nil) == (r.Err == nil)
+				if same && r.Err != nil {
+					same = ar.Err.Error() == r.Err.Error()
+				} else if same {
+					same = len(ar.Vals) == len(r.Vals)
+					for i := 0; same && i < len(ar.Vals); i++ {
+						a, isAcc := ar.Vals[i].(jsonpath.Accessor)
+						same = isAcc && a.Get != nil && snap(a.Get()) == snap(r.Vals[i])
+					}
+				}
+				if same {
+					same = len(alog.calls) == len(log.calls)
+					for i := 0; same && i < len(log.calls); i++ {
+						same = !alog.calls[i].Acc && alog.calls[i].Fn == log.calls[i].Fn && snap(alog.calls[i].Arg) == snap(log.calls[i].Arg)
+					}
+				}
+				if !same {
+					w.viol("C12", "accessor-mode-differs", text, before, fmt.Sprintf("decode=%s: plain %s (calls %s), accessor mode %s (calls %s)", mode, r, logString(log.calls), ar, logString(alog.calls)), "traceB", raw)
+				}
+			}
+		}
 		// ---- the record for TLC
 		ex := &exact{ok: true}
 		var strs []string
@@ -199,8 +231,17 @@ func (w *worker) recordEval(c *recCase, raw []byte) {
 			w.count("deep-nesting(Go-side checks only)", 1)
 			continue
 		}
+		calls := []interface{}{}
+		for _, cl := range log.calls {
+			calls = append(calls, map[string]interface{}{"fn": toCps(cl.Fn), "arg": toModel(cl.Arg, ex, nil)})
+		}
+		if !ex.ok {
+			w.count("unmodellable(numbers)", 1)
+			continue
+		}
 		rec := map[string]interface{}{
-			"id": c.ID*2 + map[bool]int{false: 0, true: 1}[number], "s": toCps(text),
+			"log": calls,
+			"id":  c.ID*2 + map[bool]int{false: 0, true: 1}[number], "s": toCps(text),
 			"cfg":  map[string]interface{}{"ff": namesToCps(ffNames), "af": namesToCps(afNames)},
 			"tabs": map[string]interface{}{"mode": "tables", "nums": numTables(rs), "res": reTables(rs, dedup(strs))},
 			"doc":  mdoc, "res": res, "mode": mode,
